@@ -51,8 +51,9 @@ structure Field.WF (f : Field) : Prop where
   ows1_ok : AllOWS f.ows1
   ows2_ok : AllOWS f.ows2
 
-/-- the header map a recipient must build: last value wins per case-insensitive name, first spelling kept -/
-def headerMap (fs : List Field) : Headers := fs.foldl (fun h f => hdrSet h f.name f.value) []
+/-- the header map a recipient must build: per case-insensitive name the last value wins and the first spelling is kept,
+except that repeated `Connection` field lines combine into one comma-separated list (RFC 9110 §5.3) -/
+def headerMap (fs : List Field) : Headers := fs.foldl (fun h f => hdrAdd h f.name f.value) []
 
 /-- `l0 CRLF l1 CRLF … ln` (no trailing CRLF) -/
 def joinCRLF : List Bytes → Bytes
